@@ -1,6 +1,8 @@
 package nbt
 
 import (
+	"bytes"
+
 	vp "github.com/Tnze/go-mc/internal/zzvp"
 )
 
@@ -41,7 +43,16 @@ func VP_C03_typed() {
 	vp.SizeBound(n + 1)
 	vp.Assume(n >= 1)
 	tag := b[0]
-	d := NewDecoder(&vpByteReader{b: b})
+	// the source: a reader with nothing but Read/ReadByte, or bytes.Reader /
+	// bytes.Buffer (which expose Len, Size, WriteTo, ... that a decoder may use)
+	var src DecoderReader = &vpByteReader{b: b}
+	switch vp.Choice(2 + vp.Tier()) {
+	case 1:
+		src = bytes.NewReader(b)
+	case 2:
+		src = bytes.NewBuffer(append([]byte{}, b...))
+	}
+	d := NewDecoder(src)
 	d.NetworkFormat(true)
 	var err error
 	switch vp.Choice(8) {
